@@ -624,43 +624,101 @@ def r7(ctx):
 
 # ---------------------------------------------------------------------------
 
+def _coolant_atoms(fn_node):
+    """Atom / env tables for the uniform-temperature reading of a low-fidelity
+    coolant update: every element of temp['coolant_int'] is T, a neighbour
+    sum np.sum(temp['coolant_int'][...], axis=1) is kept as S."""
+    atoms = {}
+    for n in ast.walk(fn_node):
+        s = _s(n)
+        if isinstance(n, ast.Subscript) and \
+                s.startswith("self.temp['coolant_int']"):
+            up = parent(n)
+            if not (isinstance(up, ast.Subscript) and up.value is n):
+                atoms[s] = 'T'
+        elif isinstance(n, ast.Call) and call_name(n) in ('np.sum', 'sum') \
+                and n.args and _s(n.args[0]).startswith(
+                    "self.temp['coolant_int'][") and n.keywords:
+            atoms[s] = 'S'
+    return atoms
+
+
 def r8(ctx):
+    """Low-fidelity regions, decided on the algebra of the update itself
+    (D_poly over the straight-line evaluation of _calc_coolant_temp): the
+    returned increment x node flow x cp equals exactly what is tallied
+    (power share + wall heat) plus a ring exchange that vanishes for uniform
+    temperatures and is linear in (neighbour sum, own temperature)."""
+    from ..algeval import run_function
+    from ..poly import Rat
     repo = ctx.repo
-    f = repo.func('region_unrodded',
-                  'SingleNodeHomogeneous._calc_coolant_temp')
-    rets = [r for r in walk_no_nested(f.node) if isinstance(r, ast.Return)]
-    ok = len(rets) == 1 and _s(rets[0].value) == \
-        'dT * dz / self.flow_rate / self.coolant.heat_capacity'
-    ctx.require(ok, 'C01.R8', f, rets[0] if rets else f.node,
-                'single node: dT = (power + wall heat) dz / (m cp)',
-                key=f.full + ' | Q = m cp dT')
-    d0 = [a for a in U.assigns_of(f.node, 'dT')]
-    ok = d0 and isinstance(d0[0], ast.Assign) and \
-        _s(d0[0].value) == "power['refl']"
-    ctx.require(bool(ok), 'C01.R8', f, d0[0] if d0 else f.node,
-                'single node source = homogenised linear power',
-                key=f.full + ' | source')
+    cp = Rat.sym("<self.coolant.heat_capacity>")
+    SUM = Rat.sym('<SUM>')
+    for q, flow, nnode in (
+            ('SingleNodeHomogeneous._calc_coolant_temp', 'self.flow_rate', 1),
+            ('MultiNodeHomogeneous._calc_coolant_temp', 'self._scfr', 6)):
+        f = repo.func('region_unrodded', q)
+        atoms = _coolant_atoms(f.node)
+        for approx in (False, True):
+            flags = {'adiabatic': False, 'ebal': True,
+                     'self._conv_approx': approx,
+                     "power['refl'] is None": False}
+            r = run_function(f, flags, atoms)
+            eb = r.call('update_ebal')
+            tag = '%s | conv_approx=%s' % (f.full, approx)
+            if r.ret is None or len(eb) != 1 or len(eb[0][1]) != 2 or \
+                    None in eb[0][1]:
+                ctx.violation('C01.R8', f, f.node, 'the coolant update must '
+                              'return its increment and tally power and wall '
+                              'heat once (update_ebal) on the non-adiabatic '
+                              'path', key=tag + ' | shape')
+                continue
+            q_in, q_wall = eb[0][1]
+            m = Rat.sym('<%s>' % flow)
+            if nnode == 1:
+                # one coolant node fed by all wall cells: sum over the walls
+                D = r.ret * m * cp - (q_in + SUM * q_wall)
+            else:
+                D = r.ret * m * cp - (q_in / Rat.const(nnode) + q_wall)
+            # uniform coolant temperature: neighbour sum = 2 T
+            Du = D.subs('S', Rat.sym('T') * Rat.const(2))
+            ctx.require(
+                Du.is_zero(), 'C01.R8', f, r.ret_node,
+                'enthalpy rise of a node (increment x %s x cp) must equal '
+                'the tallied power share plus the tallied wall heat; residual '
+                'for uniform coolant temperature: %s' % (flow, str(Du)[:200]),
+                note='conv_approx=%s' % approx, key=tag + ' | tally = rise')
+            if nnode == 1:
+                continue
+            # exchange part: a x (S - 2T), a free of S and T
+            ok = D.d.degree_in('S') == 0 and D.d.degree_in('T') == 0 and \
+                D.n.degree_in('S') <= 1 and all(
+                    sum(e for sy, e in k if sy in ('S', 'T')) <= 1
+                    for k in D.n.t)
+            ctx.require(
+                ok and not D.is_zero(), 'C01.R8', f, r.ret_node,
+                'six-node exchange must be linear: coefficient x (sum of '
+                'the two neighbours - 2 x self), so that it cancels over '
+                'the closed ring', note='conv_approx=%s' % approx,
+                key=tag + ' | ring exchange')
+        # adiabatic path: nothing from the wall reaches the coolant or the
+        # tally
+        r = run_function(f, {'adiabatic': True, 'ebal': True,
+                             'self._conv_approx': False,
+                             "power['refl'] is None": False}, atoms)
+        eb = r.call('update_ebal')
+        ok = r.ret is not None and len(eb) == 1 and len(eb[0][1]) == 2 and \
+            eb[0][1][1] is not None and eb[0][1][1].is_zero()
+        if ok:
+            m = Rat.sym('<%s>' % flow)
+            D = (r.ret * m * cp - eb[0][1][0] / Rat.const(nnode)).subs(
+                'S', Rat.sym('T') * Rat.const(2))
+            ok = D.is_zero()
+        ctx.require(ok, 'C01.R8', f, r.ret_node or f.node,
+                    'adiabatic wall: increment x flow x cp = power share, '
+                    'zero wall tally', key=f.full + ' | adiabatic')
     g = repo.func('region_unrodded',
                   'MultiNodeHomogeneous._calc_coolant_temp')
-    rets = [r for r in walk_no_nested(g.node) if isinstance(r, ast.Return)]
-    ok = len(rets) == 1 and _s(rets[0].value) == \
-        'dT * dz / self._scfr / self.coolant.heat_capacity'
-    ctx.require(ok, 'C01.R8', g, rets[0] if rets else g.node,
-                'six nodes: each node divides by its own flow (total / 6)',
-                key=g.full + ' | per-node flow')
-    d0 = [a for a in U.assigns_of(g.node, 'dT')]
-    ok = d0 and _s(d0[0].value) == "np.ones(6) * power['refl'] / 6"
-    ctx.require(bool(ok), 'C01.R8', g, d0[0] if d0 else g.node,
-                'six nodes: power split evenly', key=g.full + ' | source')
-    # exchange: (T_left + T_right - 2 T_self) x one constant -> sums to zero
-    ex = find_all("dT += (np.sum(self.temp['coolant_int'][self._cond['adj']], "
-                  "axis=1) - 2 * self.temp['coolant_int']) * "
-                  "self._cond['const'] * self.coolant.thermal_conductivity",
-                  g.node, 'stmt')
-    ctx.require(len(ex) == 1, 'C01.R8', g, ex[0][0] if ex else g.node,
-                'six-node exchange = const x k x (sum of the two neighbours - '
-                '2 x self): cancels over the ring',
-                key=g.full + ' | ring exchange')
     sh = repo.func('region_unrodded', 'MultiNodeHomogeneous._setup_ht_consts')
     adj = None
     for t, st in U.stores(sh.node):
@@ -672,7 +730,14 @@ def r8(ctx):
     ctx.require(ok, 'C01.R8', sh, sh.node,
                 'six-node adjacency must be the closed ring (each node: its '
                 'two neighbours; symmetric)', key=sh.full + ' | ring adjacency')
-    sfr = find_all('self._scfr = self.flow_rate / 6', repo.func(
-        'region_unrodded', 'MultiNodeHomogeneous.__init__').node, 'stmt')
-    ctx.require(len(sfr) == 1, 'C01.R8', g, None, 'node flow = total / 6',
+    from ..poly import from_ast
+    init = repo.func('region_unrodded', 'MultiNodeHomogeneous.__init__')
+    st = [x for t, x in U.stores(init.node) if _s(t) == 'self._scfr']
+    ok = len(st) == 1 and isinstance(st[0], ast.Assign)
+    if ok:
+        v = from_ast(st[0].value, {'self.flow_rate': 'F', 'flow_rate': 'F'},
+                     auto=True)
+        ok = v.equals(Rat.sym('F') / Rat.const(6))
+    ctx.require(ok, 'C01.R8', init, st[0] if st else init.node,
+                'node flow = total / 6',
                 key='dassh.region_unrodded:MultiNodeHomogeneous | node flow')
